@@ -580,3 +580,82 @@ func c07WholeFrames(x *X) {
 func init() {
 	register(&Scenario{Prop: "C07", Name: "c07/whole-frames", Quick: []Bound{{0, 0}}, Thorough: []Bound{{0, 0}}, Body: c07WholeFrames, MinHB: 1})
 }
+
+// one header object (Encoder.NewRequest / NewResponse) used for a sequence of messages through
+// its setters - with and without Reset in between - and marshalled by the encoder's codec each
+// time: every encoding decodes to the fields set last, whatever the object held before (a cached
+// size, a longer text, a present upgrade field).  The named encoders only: the built-in header has
+// no header objects.
+func c07ReusedObjects(x *X) {
+	kind := x.Choose(2)
+	encName := []string{"pb", "code", "json"}[x.Choose(3)]
+	reset := x.Choose(2) == 1
+	ps := perms(4)
+	order := ps[x.Choose(len(ps))]
+	long := c07Text(130, encName, 3)
+	hs := []hdrCase{
+		{kind: kind, seq: 300, up: []byte{0x28}, text: long, body: c07Body(200, 5)},
+		{kind: kind, seq: 0},
+		{kind: kind, seq: 1, text: "Svc.Echo", body: c07Body(12, 1)},
+		{kind: kind, seq: 1 << 40, body: c07Body(70, 9)},
+	}
+	enc := wireEncoder(encName)
+	codec := enc.NewCodec()
+	var req rpc.Request
+	var res rpc.Response
+	if kind == 0 {
+		req = enc.NewRequest()
+	} else {
+		res = enc.NewResponse()
+		for i := range hs {
+			hs[i].up = nil
+		}
+	}
+	scratch := make([]byte, 0, 1024)
+	for step, i := range order {
+		h := hs[i]
+		var msg interface{}
+		if kind == 0 {
+			if reset {
+				req.Reset()
+			}
+			req.SetSeq(h.seq)
+			req.SetUpgrade(h.up)
+			req.SetServiceMethod(h.text)
+			req.SetArgs(h.body)
+			msg = req
+		} else {
+			if reset {
+				res.Reset()
+			}
+			res.SetSeq(h.seq)
+			res.SetError(h.text)
+			res.SetReply(h.body)
+			msg = res
+		}
+		var data []byte
+		var err error
+		func() {
+			defer func() {
+				if r := recover(); r != nil {
+					err = fmt.Errorf("encoder panicked: %v", r)
+				}
+			}()
+			data, err = codec.Marshal(scratch[:0], msg)
+		}()
+		if err != nil {
+			x.Fail("C07/reused-object/encode/"+encName, "message %d of the order %v set on a header object that had carried the messages before it (Reset in between: %v): Marshal failed: %v", step, order, reset, err)
+			break
+		}
+		got, derr := decodeMsg(enc, kind, append([]byte(nil), data...))
+		if derr != nil || !sameHdr(got, h) {
+			x.Fail("C07/reused-object/roundtrip/"+encName, "message %d of the order %v (seq %d, upgrade %x, %d text bytes, %d body bytes) set on a header object that had carried the messages before it (Reset in between: %v) decodes to seq %d, upgrade %x, %d text bytes, %d body bytes (err %v)", step, order, h.seq, h.up, len(h.text), len(h.body), reset, got.seq, got.up, len(got.text), len(got.body), derr)
+			break
+		}
+	}
+	x.Outcome("kind=%d enc=%q reset=%v order=%v", kind, encName, reset, order)
+}
+
+func init() {
+	register(&Scenario{Prop: "C07", Name: "c07/reused-header-objects", Quick: []Bound{{0, 0}}, Thorough: []Bound{{0, 0}}, Body: c07ReusedObjects, MinHB: 1})
+}
